@@ -281,7 +281,15 @@ class Ctx:
 
   # ---- Coq: property file
   def build_property(self, gen_needed=(), case_libs=('Model/CaseDefs.vo',)):
-    """regenerate translated sources, build, compile Properties/<prop>.v; records obligations."""
+    """regenerate translated sources, build, compile Properties/<prop>.v; records obligations.
+    Returns whether the case libraries are available (self.property_ok says whether the obligations hold)."""
+    self.property_ok = True
+    r = self._build_property(gen_needed, case_libs)
+    if not r:
+      self.property_ok = False
+    return r
+
+  def _build_property(self, gen_needed=(), case_libs=('Model/CaseDefs.vo',)):
     prop_v = os.path.join(COQ, 'Properties', self.prop + '.v')
     thms = lemma_closure(prop_v)
     self.checker_cmd = "cd /verif/coq && make Properties/%s.vo (coqc 8.16.1, full .vo build) ; coqc Properties/%s.v" % (self.prop, self.prop)
@@ -309,7 +317,12 @@ class Ctx:
         if pdiff and 'Pins%s' % self.prop in out:
           self.break_tie('obligation', 'Proofs/Pins%s.v: a function this property\'s hand-written model was written from has changed' % self.prop, pdiff)
         self.break_tie('obligation', 'Properties/%s.v (or a lemma it depends on)' % self.prop, where or out[-1500:])
-        return False
+        # the obligations are broken (recorded above: the verdict is a violation whatever follows); the executable model and the
+        # certificate checkers may still build, in which case the correspondence cases are run all the same -- they are the
+        # sharpest oracle for finding the failing input
+        self.property_ok = False
+        rc2, out2 = make(list(case_libs))
+        return rc2 == 0
       # recompile the property file itself to capture Print Assumptions
       rc, out = run(['coqc'] + QFLAGS + ['Properties/%s.v' % self.prop], cwd=COQ, timeout=600)
     if rc != 0:
